@@ -1,5 +1,6 @@
-(* C19 driver: scenario = flat list of ops (:M scope | :S.field args | :E.field args | :A.field args); see checks/C19.py.
-   Observation = ":c <half> :x <half>", half = <failures> <crash hook runs> <op|~> <text|~> <n> (<op> :<field> :<kind> <payload>)^n <k> (<op> <bytes>)^k *)
+(* C19 driver: scenario = flat list of ops (:M scope | :S.field args | :E.field args | :A.field args | :T); see checks/C19.py.
+   Observation = ":c <half> :x <half>",
+   half = <t> (<failures> <crash hook runs> <op|~> <text|~>)^t <n> (<op> :<field> :<kind> <payload>)^n <k> (<op> <bytes>)^k   (t = number of tests) *)
 let name_of_string (s : string) : n list = List.init (String.length s) (fun i -> n_of_int (Char.code s.[i]))
 let is_sym t = String.length t > 0 && t.[0] = ':'
 let parse_ops (ts : string list) : op list =
@@ -13,6 +14,7 @@ let parse_ops (ts : string list) : op list =
     if not (is_sym t) then raise (Bad ("op symbol expected: " ^ t));
     let o =
       if t = ":M" then (match args () with [AB sc] -> OSelect sc | _ -> raise (Bad ":M takes one scope"))
+      else if t = ":T" then (match args () with [] -> ONewTest | _ -> raise (Bad ":T takes no argument"))
       else if String.length t > 3 && t.[2] = '.' then begin
         let tb = (match t.[1] with 'S' -> TblS | 'E' -> TblE | 'A' -> TblA | _ -> raise (Bad ("table " ^ t))) in
         let f = name_of_string (String.sub t 3 (String.length t - 3)) in
@@ -28,9 +30,11 @@ let pcanon = function
   | CD z -> ":d " ^ pz z
   | CS s -> ":s " ^ poptbytes s
   | CP (k, z) -> (match k with PVoid -> ":p " | PConst -> ":cp " | PFunc -> ":fp " | PMem -> ":mem " | PObj -> ":obj ") ^ pz z
+let ptest (t : tres) =
+  let (nf, fo, tx) = (match t.t_fail with None -> ("0", "~", "~") | Some (i, x) -> ("1", pn i, pbytes x)) in
+  String.concat " " [nf; pn t.t_crash; fo; tx]
 let phalf (h : half) =
-  let (nf, fo, tx) = (match h.h_fail with None -> ("0", "~", "~") | Some (i, t) -> ("1", pn i, pbytes t)) in
-  String.concat " " ([nf; pn h.h_crash; fo; tx; Printf.sprintf "%x" (List.length h.h_vals)]
+  String.concat " " ([Printf.sprintf "%x" (List.length h.h_tests)] @ List.map ptest h.h_tests @ [Printf.sprintf "%x" (List.length h.h_vals)]
     @ List.map (fun v -> pn v.v_op ^ " :? " ^ pcanon v.v_canon) h.h_vals
     @ [Printf.sprintf "%x" (List.length h.h_outs)] @ List.map (fun (i, b) -> pn i ^ " " ^ pbytes b) h.h_outs)
 let run_line ts =
@@ -39,12 +43,14 @@ let run_line ts =
   let o = run ops in ":c " ^ phalf o.o_c ^ " :x " ^ phalf o.o_x
 (* failures and the op at which the test was left are one key: op + 2^20 * failures *)
 let parse_half (c : cur) : half =
-  let nf = int_tok (next c) in
-  let crash = n_tok (next c) in
-  let fo = next c in
-  let tx = next c in
-  let fail = if nf = 0 && fo = "~" then None
-             else Some (n_of_int ((if fo = "~" then 0xfffff else int_tok fo) + 1048576 * nf), (if tx = "~" then [] else bytes_tok tx)) in
+  let tests = counted c (fun c ->
+    let nf = int_tok (next c) in
+    let crash = n_tok (next c) in
+    let fo = next c in
+    let tx = next c in
+    let fail = if nf = 0 && fo = "~" then None
+               else Some (n_of_int ((if fo = "~" then 0xfffff else int_tok fo) + 1048576 * nf), (if tx = "~" then [] else bytes_tok tx)) in
+    { t_fail = fail; t_crash = crash }) in
   let vals = counted c (fun c ->
     let i = n_tok (next c) in
     let _field = next c in
@@ -60,7 +66,7 @@ let parse_half (c : cur) : half =
       | _ -> raise (Bad ("value kind " ^ k))) in
     { v_op = i; v_canon = canon }) in
   let outs = counted c (fun c -> let i = n_tok (next c) in let b = bytes_tok (next c) in (i, b)) in
-  { h_fail = fail; h_crash = crash; h_vals = vals; h_outs = outs }
+  { h_tests = tests; h_vals = vals; h_outs = outs }
 let spec_line ts os =
   let ops = parse_ops ts in
   let c = { rest = os } in
